@@ -304,9 +304,26 @@ pub fn extract(repo: &std::path::Path) -> std::result::Result<String, String> {
     let snap_vfs_fn = find_fn(&srv, "StateSnapshot", "vfs").ok_or("server.rs: StateSnapshot::vfs not found")?;
     let snap_vfs_is_read = without_hooks(&snap_vfs_fn.block) == "{self.vfs.read().unwrap()}";
     let handlers = handler_tasks(repo)?;
+    // the diagnostics path: generation per calculation, stale results dropped, cancelled ones silent, every document recalculated
+    let body_of = |name: &str| -> std::result::Result<String, String> {
+        Ok(norm_tokens(&find_fn(&srv, "Server", name).ok_or(format!("server.rs: Server::{name} not found"))?.block.to_token_stream()))
+    };
+    let sud = body_of("spawn_update_diagnostics")?;
+    let oud = body_of("on_update_diagnostics")?;
+    let suad = body_of("spawn_update_all_diagnostics")?;
+    let gen_per_spawn = sud.contains("f.diagnostics_generation=f.diagnostics_generation.wrapping_add(1);")
+        && sud.contains("letgeneration=f.diagnostics_generation;")
+        && sud.contains("version:Some(generation)");
+    let drop_stale = oud.contains("letgeneration=diagnostics.version.take();")
+        && oud.contains("ifgeneration!=Some(f.diagnostics_generation){returnControlFlow::Continue(());}");
+    let cancelled_silent = sud.contains("Err(err)iferr.is::<Cancelled>()=>None");
+    let respawn_all = suad.contains("self.opened_files.keys()")
+        && suad.contains("foruriinuris{self.spawn_update_diagnostics(uri);}")
+        && body_of("on_did_change")?.contains("self.spawn_update_all_diagnostics()")
+        && body_of("on_did_open")?.contains("self.spawn_update_all_diagnostics()");
 
     let mut s = String::new();
-    s.push_str("import Glas.Model.ChoreoSpec\n/-! GENERATED by xlate from crates/ide/src/ide/mod.rs and crates/glas/src/server.rs — do not edit. -/\nnamespace Glas.Gen\nopen Glas.ChoreoSpec\n\n");
+    s.push_str("import Glas.Model.ChoreoSpec\nimport Glas.Model.Diag\n/-! GENERATED by xlate from crates/ide/src/ide/mod.rs and crates/glas/src/server.rs — do not edit. -/\nnamespace Glas.Gen\nopen Glas.ChoreoSpec\n\n");
     s.push_str(&format!(
         "def hostFlags : HostFlags := {{ cancelBeforeApply := {cancel_before_apply}, cancelIsSyntheticWrite := {cancel_is_synthetic_write}, catchCancelled := {catch_cancelled}, allQueriesThroughWithDb := {all_through}, snapshotIsDbSnapshot := {snapshot_is_db_snapshot} }}\n\n"
     ));
@@ -319,6 +336,9 @@ pub fn extract(repo: &std::path::Path) -> std::result::Result<String, String> {
     s.push_str("\n]\n\n");
     s.push_str(&format!(
         "def serverFlags : ServerFlags := {{ snapshotBeforeSpawn := {snapshot_before_spawn}, tasksReadLiveVfs := {state_vfs}, snapVfsIsRead := {snap_vfs_is_read} }}\n\n"
+    ));
+    s.push_str(&format!(
+        "/-- the diagnostics path of server.rs (spawn_update_diagnostics / on_update_diagnostics / spawn_update_all_diagnostics) -/\ndef diagFlags : Glas.Diag.Flags := {{ genPerSpawn := {gen_per_spawn}, dropStale := {drop_stale}, cancelledSilent := {cancelled_silent}, respawnAll := {respawn_all} }}\n\n"
     ));
     s.push_str("/-- operations of each request handler (handler.rs) on the document store and the snapshot, in source order -/\ndef handlerTasks : List (String × List TOp) := [\n");
     s.push_str(
